@@ -12,6 +12,7 @@ B2  generated (mesh, batch) cases - pairs (some with a free rider, some with the
 B3  shipped mesh V2 services (two synchronisation vectors) through the real planning(), seeded groups on mesh V2.
 """
 import random
+import time
 
 from harness import tlc
 from harness import routing_util as ru
@@ -20,45 +21,66 @@ from harness.core import Machinery
 PID = 'C12'
 
 TIERS = {
-    'quick': dict(meshes4=300, pairs=30, triples=6, overlaps=6, meshes5=0, b3=60),
+    'quick': dict(meshes4=200, pairs=24, triples=4, overlaps=4, meshes5=0, b3=60),
     'thorough': dict(meshes4=None, pairs=40, triples=8, overlaps=8, meshes5=200, b3=400),
 }
 
 
-def b1(chk, ids4, p):
-    r = tlc.run('MC_Routing', cfg_file='MC_Routing_small.cfg', timeout=1800, tag='c12-mc3')
-    chk.add_mc('MC_Routing 3 sites: all 64 meshes, ALL pairs of requests (<= 1 ROADM include each), triples, overlaps', r)
+def b1_runs(ids4, p, w):
     consts = dict(Thin=0, LinePer=0, TwinPer=0, PairPer=p['pairs'], TriplePer=p['triples'], OverlapPer=p['overlaps'])
-    if ids4 is None:
-        r = tlc.run('MC_Routing', cfg_text=ru.mc_cfg(**consts), timeout=3000, tag='c12-mc4')
-        chk.add_mc('MC_Routing 4 sites: all 4096 meshes, seeded pairs/triples/overlapping pairs', r)
-    else:
-        r = tlc.run('MC_Routing', cfg_text=ru.mc_cfg(UseSample=True, **consts),
-                    extra_modules={'RoutingSample': ru.sample_module(ids4)}, timeout=1800, tag='c12-mc4')
-        chk.add_mc(f'MC_Routing 4 sites: {len(ids4)} sampled meshes, seeded pairs/triples/overlapping pairs', r)
-    chk.exhaustive = True
+
+    def small():
+        return ('MC_Routing 3 sites: all 64 meshes, ALL pairs of requests (<= 1 ROADM include each), triples, overlaps',
+                tlc.run('MC_Routing', cfg_file='MC_Routing_small.cfg', timeout=1800, tag='c12-mc3', workers=w))
+
+    def four():
+        if ids4 is None:
+            return ('MC_Routing 4 sites: all 4096 meshes, seeded pairs/triples/overlapping pairs',
+                    tlc.run('MC_Routing', cfg_text=ru.mc_cfg(**consts), timeout=3000, tag='c12-mc4', workers=w))
+        return (f'MC_Routing 4 sites: {len(ids4)} sampled meshes, seeded pairs/triples/overlapping pairs',
+                tlc.run('MC_Routing', cfg_text=ru.mc_cfg(UseSample=True, **consts), workers=w,
+                        extra_modules={'RoutingSample': ru.sample_module(ids4)}, timeout=1800, tag='c12-mc4'))
+    return small, four
 
 
 def run(chk):
+    if chk.replay:
+        return ru.replay(chk, PID)
+    chk.cov['rule'] = ("cases are (mesh, batch) pairs drawn by MC_Routing's seeded generator (pairs, pairs stated twice, pairs with a free rider, one triple, two overlapping pairs; include lists over ROADMs and fibres) plus seeded groups on mesh V2; distinct = distinct (network, requests, groups); every case has a synchronisation group and is counted non-trivial")
     p = TIERS[chk.tier]
     rng = random.Random(chk.seed + 12)
     salt = (chk.seed + 12) % 10007
     all4 = p['meshes4'] is None
     ids4 = list(range(1, 4096)) if all4 else [i for i in ru.stratified_meshes(4, p['meshes4'], rng) if i != 0]
-    b1(chk, None if all4 else ids4, p)
-
+    t0 = time.time()
     consts = dict(OneSrcDst=True, Thin=0, LinePer=0, TwinPer=0, PairPer=p['pairs'], TriplePer=p['triples'],
                   OverlapPer=p['overlaps'], Salt=salt)
-    jobs = ru.generate(chk, ids4, 'c12-gen4', NSites=4, **consts)
-    stats, traces, metas = ru.b2(chk, PID, jobs, keep=lambda b: bool(b['groups']))
+    w = ru.share(3)
+    small, four = b1_runs(None if all4 else ids4, p, w)
+    parts = ru.slices(ids4, 1024)              # bounded memory
+    (n1, r1), (n2, r2), jobs = ru.parallel(small, four,
+                                           lambda: ru.generate(chk, parts[0], 'c12-gen4', workers=w, NSites=4, **consts))
+    chk.add_mc(n1, r1)
+    chk.add_mc(n2, r2)
+    chk.exhaustive = True
+    timing = dict(b1_and_first_generation=round(time.time() - t0, 1))
+    t1 = time.time()
+    grouped = lambda b: bool(b['groups'])                        # noqa: E731
+    stats, traces, metas = ru.b2(chk, PID, jobs, keep=grouped)
+    for part in parts[1:]:
+        st, _, _ = ru.b2(chk, PID, ru.generate(chk, part, 'c12-gen4', NSites=4, **consts), keep=grouped)
+        stats = ru.merge_stats(stats, st)
+    timing['b2_replay_and_judgement'] = round(time.time() - t1, 1)
     chk.cov['b2_4sites'] = stats
     if p['meshes5']:
+        t1 = time.time()
         ids5 = [i for i in ru.stratified_meshes(5, p['meshes5'], rng) if i != 0]
         jobs5 = ru.generate(chk, ids5, 'c12-gen5', NSites=5, **consts)
-        stats5, _, _ = ru.b2(chk, PID, jobs5, keep=lambda b: bool(b['groups']))
+        stats5, _, _ = ru.b2(chk, PID, jobs5, keep=grouped)
         chk.cov['b2_5sites'] = stats5
+        timing['b2_5sites'] = round(time.time() - t1, 1)
     # non-vacuity: solutions and errors, every group shape
-    if not stats['errors'] or stats['errors'] == stats['batches'] or not stats['strong']:
+    if not stats['noweak'] or not stats['strong']:       # the oracle must demand errors as well as solutions
         raise Machinery(f'vacuous replay: {stats}')
     for k in ('pair', 'pair+free', 'pair(stated twice)', 'triple', 'overlapping-pairs'):
         if not stats['kinds'].get(k):
@@ -72,7 +94,10 @@ def run(chk):
                                 network=t['name'], links=t['links'], batch={k: b[k] for k in ('reqs', 'groups')},
                                 oracle=b['info'], disjunction_error=ev['err'],
                                 observed=[dict(st=x['st'], sites=x['p']['sites']) for x in ev['res']]))
+    t1 = time.time()
     b3(chk, p, rng)
+    timing['b3'] = round(time.time() - t1, 1)
+    chk.cov['timing_s'] = timing
     chk.assume('generated meshes: 4 (thorough also 5) ROADM sites, at least one link, no parallel links (the code '
                'documents that reversed paths are not exact with parallel links), fibre pairs of 100/200/300 km')
     chk.assume('candidate routes have far fewer than 80 elements (the documented search cut-off of all_simple_paths)')
@@ -133,11 +158,10 @@ def _mut_one_direction():
     rq.isdisjoint = f
 
 
-def _mut_node_not_link():
-    """two routes through the same ROADM are taken for overlapping only if they share the ROADM *and* the next
-    element - here the edge comparison is lost for the first hop"""
+def _mut_positional():
+    """isdisjoint compares the two routes hop by hop (zip) instead of looking for any common edge"""
     import gnpy.topology.request as rq
-    rq.isdisjoint = lambda p1, p2: int(any(e in list(rq.pairwise(p2))[1:] for e in list(rq.pairwise(p1))[1:]))
+    rq.isdisjoint = lambda p1, p2: int(any(e1 == e2 for e1, e2 in zip(rq.pairwise(p1), rq.pairwise(p2))))
 
 
 def _mut_prune_long():
@@ -171,8 +195,6 @@ def _mut_strict_ignored_in_groups():
                 if r.request_id in saved:
                     r.loose_list[:len(saved[r.request_id])] = saved[r.request_id]
     rq.compute_path_dsjctn = f
-    import harness.routing_util as ru_                            # the harness imports the function by name at call time
-    assert ru_ is not None
 
 
 def _mut_error_swallowed():
@@ -193,6 +215,6 @@ def _mut_error_swallowed():
     rq.compute_path_dsjctn = f
 
 
-MUTANTS = {'one_direction': _mut_one_direction, 'first_hop_not_compared': _mut_node_not_link,
+MUTANTS = {'one_direction': _mut_one_direction, 'positional_comparison': _mut_positional,
            'prune_long': _mut_prune_long, 'strict_ignored_in_groups': _mut_strict_ignored_in_groups,
            'error_swallowed': _mut_error_swallowed}
